@@ -766,7 +766,7 @@ func (g *generator) enter() {
 	g.storeLengths()
 }
 
-func (g *generator) enterNextFinallyFrame() (canContinue bool) {
+func (g *generator) enterNextFinallyFrame() (canContinue bool, ex *Exception) {
 	vm := g.vm
 	callStackLen := len(vm.callStack)
 
@@ -775,10 +775,14 @@ func (g *generator) enterNextFinallyFrame() (canContinue bool) {
 		if int(tf.callStackLen) != callStackLen { // have we breached the function boundary?
 			break
 		}
-		ex := vm.restoreStacks(tf.iterLen, tf.refLen)
+		ex = vm.restoreStacks(tf.iterLen, tf.refLen)
 		if ex != nil {
-			vm.throw(ex)
-			return true
+			// Closing an iterator has thrown: the exception replaces the return completion and propagates
+			// to the enclosing try statements of the generator. If none of them catches it, handleThrow()
+			// unwinds to the frame pushed by enterNext().
+			g.returning = nil
+			ex = vm.handleThrow(ex)
+			return ex == nil, ex
 		}
 		if tf.finallyPos >= 0 {
 			vm.sp = int(tf.sp)
@@ -788,7 +792,7 @@ func (g *generator) enterNextFinallyFrame() (canContinue bool) {
 			tf.catchPos = tryPanicMarker
 			tf.finallyPos = -1
 			tf.finallyRet = tryGeneratorMarker // -1 would cause it to continue after leaveFinally
-			return true
+			return true, nil
 		}
 		vm.popTryFrame()
 	}
@@ -838,7 +842,16 @@ func (g *generator) step() (res Value, resultType resultType, ex *Exception) {
 			}
 
 			if vm.prg != nil && vm.pc == -2 { // normal exit from finally
-				if g.enterNextFinallyFrame() {
+				cont, ex1 := g.enterNextFinallyFrame()
+				if ex1 != nil {
+					ex = ex1
+					return
+				}
+				if cont {
+					if g.returning == nil {
+						// an exception thrown while closing an iterator has been caught, continue normally
+						return g.step()
+					}
 					continue
 				}
 
@@ -1085,7 +1098,13 @@ func (g *generatorObject) _return(v Value) Value {
 	g.gen.returning = v
 	g.state = genStateExecuting
 	g.gen.enterNext()
-	canContinue := g.gen.enterNextFinallyFrame()
+	canContinue, ex := g.gen.enterNextFinallyFrame()
+	if ex != nil {
+		vm := g.gen.vm
+		vm.popTryFrame()
+		vm.popCtx()
+		return g.step(nil, resultNormal, ex)
+	}
 	if !canContinue {
 		vm := g.gen.vm
 
